@@ -77,6 +77,13 @@ Definition armor_decode_gen (guarded : bool)
 Definition armor_decode := armor_decode_gen true.
 Definition armor_decode_orig := armor_decode_gen false.
 
+(** Recorded finding C09-F1 (open): the external base58 decoder is quadratic in the payload
+    length, so the time of [armor_decode] is not linear in the input although every step of
+    the model is; the check recognises exactly this input class (armored, longer than 64 kB)
+    when its timing oracle fires. *)
+Definition known_quadratic_armor (bs : bytes) : bool :=
+  bytes_eqb (firstn 15 bs) (HEADER_WORD ++ [DOT]) && (65536 <? lenN bs).
+
 (** [format_slatepack]: a space before every 15th character, a newline before every
     3000th, counted from the start of the header *)
 Fixpoint format_from (i : N) (cs : bytes) : bytes :=
